@@ -243,6 +243,11 @@ fn norm_value(v: &str) -> Vec<String> {
     v.split('\n').map(|l| l.trim_matches([' ', '\t']).to_string()).filter(|l| !l.is_empty()).collect()
 }
 
+/// a comma-separated list of names, however it is folded (the Sources `Binary` field: the type prints it on one line)
+fn names_of(v: &str) -> Vec<String> {
+    v.split(|c: char| c == ',' || c.is_whitespace()).filter(|x| !x.is_empty()).map(|x| x.to_string()).collect()
+}
+
 /// the lines of a value as the typed value carries them: an empty line (e.g. a leading one) is not dropped
 fn carried_lines(v: &str) -> Vec<String> {
     if v.is_empty() {
@@ -326,12 +331,19 @@ fn documents_lane(ctx: &mut Ctx, idx: u64) {
                 // DEP-3 spelling fallbacks are documented readings of From/Subject
                 let k = if d.name.contains("PatchHeader") { match k.as_str() { "From" => "Author".to_string(), "Subject" => "Description".to_string(), _ => k.clone() } } else { k.clone() };
                 let v = typed::canon_text(KINDS[kind].name, &k, v);
+                if k == "Binary" && KINDS[kind].name.ends_with("apt::Source") {
+                    return (k, names_of(&v));
+                }
                 (k, norm_value(&v))
             })
             .filter(|(k, _)| known.contains(&k.as_str()))
             .collect();
         // (a Signed-By key block is a value of its own type, whose text form starts on the line after the name)
-        let mut carried: Vec<(String, Vec<String>)> = views[vi].iter().map(|(k, v)| (k.clone(), carried_lines(if k == "Signed-By" { v.strip_prefix('\n').unwrap_or(v) } else { v }))).collect();
+        let is_apt_source = KINDS[kind].name.ends_with("apt::Source");
+        let mut carried: Vec<(String, Vec<String>)> = views[vi]
+            .iter()
+            .map(|(k, v)| (k.clone(), if k == "Binary" && is_apt_source { names_of(v) } else { carried_lines(if k == "Signed-By" { v.strip_prefix('\n').unwrap_or(v) } else { v }) }))
+            .collect();
         let mut shown_sorted = shown.clone();
         // the struct lists fields in declaration order: compare as sets of (name, value)
         carried.sort();
